@@ -80,6 +80,50 @@ def lemmas(idx):
                     elif name == 'from_mat2' and len(ps) == 1 and len(L[0]) == 4:
                         M = [[L[0][c * 2 + r] for c in range(2)] for r in range(2)]; add(cfg, f, vs, args, compose(M, None, None, rows, cols), 'M embedded (2D)')
             except SymErr: continue
+    # ---- decomposition: to_scale_rotation_translation / to_scale_angle_translation.  scale = (|col0| * signum(det), |col1|, |col2|), translation = last
+    # column; the rotation is whatever the matrix -> quaternion conversion (C05, four branch lemmas) makes of the columns divided by the scale: the
+    # callee is replaced by a stub that returns its arguments (Modular.v), so the lemma states exactly which normalised axes are handed to it.
+    def fid_of(cfg, key): return next((g['fid'] for g in idx.fns(cfg) if g['key'] == key and g['fid'] is not None), None)
+    def add_raw(cfg, f, vs, args, tblx, rhs, sname, tactic='alg_congr'):
+        nonlocal n
+        args = alg.kxargs(args)
+        if f['fid'] is None or f.get('status') == 'missing-callee': notes['untranslated'].append('%s %s' % (cfg, f['key'])); return
+        lhs = 'rnorm (run OA %s 400 %d%%positive [%s])' % (tblx, f['fid'], '; '.join(args))
+        cover.append((cfg, f)); key = (lhs, rhs)
+        if key in seen: seen[key].meta['covers'].append('%s:%s' % (cfg, f['key'])); return
+        n += 1; lem = alg.AlgLemma('trs_%d' % n, vs, lhs, rhs, tactic=tactic, meta={'cfg': cfg, 'key': f['key'], 'file': f['file'], 'fid': f['fid'], 'did': f['did'], 'covers': ['%s:%s' % (cfg, f['key'])], 'spec': sname})
+        seen[key] = lem; order.append(lem)
+    def VF(k): return 'VF32' if k == 'f32' else 'VF64'
+    def vec(k, xs): return 'VT [%s]' % '; '.join('%s (KX %s)' % (VF(k), x) for x in xs)
+    for cfg in CFGS:
+        structs = idx.structs(cfg)
+        for f in idx.fns(cfg):
+            st = f['self']; tn = tname(st) if st is not None else None
+            if f['generic'] or f['by_ref'] or not f['has_self'] or not f['pub'] or f['params']: continue
+            try:
+                if f['name'] == 'to_scale_rotation_translation' and tn in T3:
+                    rows, cols, k = T3[tn]; vs = []; m = sym(structs, st, 'm', vs); L = [l[2] for l in tree_leaves(m)]
+                    C = [[L[c * rows + r] for r in range(rows)] for c in range(cols)]      # columns
+                    A3 = [[C[c][r] for c in range(3)] for r in range(3)]; det = alg.det(A3) if rows == 3 else alg.det([[C[c][r] for c in range(4)] for r in range(4)])
+                    ln = ['(k_un FSqrt %s)' % alg.S([alg.P(x, x) for x in C[c]]) for c in range(3)]
+                    sc = ['(%s * k_un FSignum %s)%%K' % (ln[0], det), ln[1], ln[2]]
+                    ax = [['(%s * (k1 / %s))%%K' % (C[c][r], sc[c]) for r in range(3)] for c in range(3)]
+                    tr = [C[3][r] for r in range(3)]
+                    qk = 'Quat' if k == 'f32' else 'DQuat'
+                    if rows == 4: callee = fid_of(cfg, qk + '::from_rotation_axes'); stub = 'stub_args3'; rot = 'VT [%s]' % '; '.join(vec(k, a) for a in ax)
+                    else: callee = fid_of(cfg, qk + '::from_mat3'); stub = 'stub_id'; rot = 'VT [%s]' % '; '.join(vec(k, a) for a in ax)
+                    if callee is None: continue
+                    rhs = 'Ok (VT [%s; %s; %s])' % (vec(k, sc), rot, vec(k, tr))
+                    add_raw(cfg, f, vs, [tree_coq(m)], '(override tbl %d%%positive %s)' % (callee, stub), rhs, 'to_scale_rotation_translation: scale = (|c0| signum(det), |c1|, |c2|), axes c_i / scale_i handed to the matrix -> quaternion conversion (abstracted), translation = last column')
+                elif f['name'] == 'to_scale_angle_translation' and tn in ('Affine2', 'DAffine2'):
+                    rows, cols, k = T2[tn]; vs = []; m = sym(structs, st, 'm', vs); L = [l[2] for l in tree_leaves(m)]
+                    C = [[L[c * 2 + r] for r in range(2)] for c in range(3)]
+                    det = '(%s * %s - %s * %s)%%K' % (C[0][0], C[1][1], C[1][0], C[0][1])
+                    sc = ['(k_un FSqrt %s * k_un FSignum %s)%%K' % (alg.S([alg.P(x, x) for x in C[0]]), det), '(k_un FSqrt %s)' % alg.S([alg.P(x, x) for x in C[1]])]
+                    ang = '(k_bin FAtan2 (- %s)%%K %s)' % (C[1][0], C[1][1])
+                    rhs = 'Ok (VT [%s; %s (KX %s); %s])' % (vec(k, sc), VF(k), ang, vec(k, C[2]))
+                    add_raw(cfg, f, vs, [tree_coq(m)], 'tbl', rhs, 'to_scale_angle_translation: scale = (|c0| signum(det), |c1|), angle = atan2(-c1.x, c1.y), translation')
+            except (SymErr, IndexError): continue
     files = {}; nfiles = max(1, (len(order) + 5) // 6)
     for i, lem in enumerate(order): files.setdefault('Trs_%03d' % (i % nfiles), []).append(lem)
     notes['covered_functions'] = len(cover); notes['distinct_statements'] = n; notes['untranslated_count'] = len(notes['untranslated'])
@@ -89,7 +133,7 @@ def run(tier, seed):
     t0 = time.time(); idx, info = flow.prepare()
     files, notes, cover = lemmas(idx)
     per_fn = 6 if tier == 'quick' else 60
-    return f1.run('C10', tier, seed, idx, info, t0, files, notes, cover, alg.BOILER, per_fn,
+    return f1.run('C10', tier, seed, idx, info, t0, files, notes, cover, alg.BOILER_MOD, per_fn,
         'one algebraic lemma per SRT constructor of the 3D and 2D transform types in three backends against the common reference entries of translation * rotation * scale, over an arbitrary field; correspondence: %d random calls per constructor' % per_fn,
         ['reference entries (quaternion rotation matrix, 2D rotation, composition) in harness/props/C10.py'],
         ['to_scale_rotation_translation / to_scale_angle_translation (decomposition and recomposition, negative scales) are exercised by the correspondence run only'], footer=alg.FOOTER)
